@@ -497,6 +497,8 @@ val nth_error : 'a1 list -> nat -> 'a1 option
 
 val rev : 'a1 list -> 'a1 list
 
+val rev_append : 'a1 list -> 'a1 list -> 'a1 list
+
 val concat : 'a1 list list -> 'a1 list
 
 val map : ('a1 -> 'a2) -> 'a1 list -> 'a2 list
@@ -579,6 +581,8 @@ val eq_ic : bytes -> bytes -> bool
 val drop_while : ('a1 -> bool) -> 'a1 list -> 'a1 list
 
 val trim_start : (byte -> bool) -> bytes -> bytes
+
+val frev : 'a1 list -> 'a1 list
 
 val trim_end : (byte -> bool) -> bytes -> bytes
 
